@@ -112,7 +112,14 @@ def datadesc(datafield: str) -> str:
     :rtype: str
     """
 
-    (_, _, _, desc) = RTCM_DATA_FIELDS[datafield[0:5]]
+    # strip group index suffixes ("_01", "_01_02"...) until a defined data
+    # field is found; some data field names themselves contain an
+    # underscore (e.g. "DF001_7", "DF422_1") and some are not 5 characters
+    # long (e.g. "IDF011", "PRN", "ExtSatInfo")
+    name = datafield
+    while name not in RTCM_DATA_FIELDS and "_" in name:
+        name = name.rsplit("_", 1)[0]
+    (_, _, _, desc) = RTCM_DATA_FIELDS[name]
     return desc
 
 
